@@ -68,7 +68,7 @@ SWrite(n) == sink.open /\ n >= 1 /\ \E o \in SWriteR(sink, n) : sink' = o
 SFlush == sink.open /\ \E o \in SFlushR(sink) : sink' = o
 SClose == sink.open /\ \E o \in SCloseR(sink) : sink' = o
 
-\* ---- facts about the sink alone (checked by MC_SinkSelf)
+\* ---- facts about the sink alone (part of TypeInv in MC_Sink)
 SkEverything(s) == s.acc = SkRange(0, s.pos)                 \* every byte written reached the device
 SkTypeOK == /\ sink.pos \in Nat /\ sink.ops \in Nat /\ sink.cap \in Nat
             /\ Len(sink.acc) + Len(sink.buf) <= sink.pos
